@@ -67,8 +67,11 @@ PROPS = {
               ["Zap.remapSeg_spec", "Zap.remapAll_spec", "Zap.newDocCount_eq", "Zap.C05_consecutive", "Zap.C05_bijection",
                "Zap.C05_count", "Zap.C05_maps", "Zap.C05_zero", "Zap.C05_stored", "Zap.mergedFieldNames_spec",
                "Zap.fieldsSame_sound"], MERGE_FILES),
-    "C06": _p([{"gen": "C06"}], ["ZapProofs.Props.C06"],
-              ["Zap.enumerate_spec", "Zap.C06_dict", "Zap.C06_sorted", "Zap.C06_term", "Zap.C06_same_unchanged"], MERGE_FILES),
+    "C06": _p([{"regress": "k1_shape_only_field_merge.script"}, {"gen": "C06"}], ["ZapProofs.Props.C06", "ZapProofs.Props.C06Dv"],
+              ["Zap.enumerate_spec", "Zap.C06_dict", "Zap.C06_sorted", "Zap.C06_term", "Zap.C06_same_unchanged",
+               "Zap.C06_dv", "Zap.C06_dv_newNum", "Zap.C06_dv_visit", "Zap.C06_dv_ascending", "Zap.C06_dv_entries",
+               "Zap.C06_dvfields", "Zap.C06_dvFieldNames", "Zap.C06_dv_fix_D11"],
+              MERGE_FILES + ["ZapProofs/Props/C06Dv.lean", "ZapProofs/MergeDvLemmas.lean"]),
     "C07": _p([{"regress": "d8_prealloc_missing_field.script"}, {"gen": "C07"}], ["ZapProofs.Props.C07", "ZapProofs.Props.C07Reuse"],
               ["Zap.C07_run", "Zap.C07_count", "Zap.C07_live", "Zap.C07_replace",
                "Zap.C07_reuse", "Zap.C07_reuse_spec", "Zap.C07_reuse_absent", "Zap.C07_reuse_source", "Zap.C07_flags_extracted",
